@@ -10,30 +10,31 @@ Rec == ndJsonDeserialize(IOEnv.OBS)
 VARIABLE l
 
 PathStr(w, n) == "./" \o RelPath(w, n)
-IdOfPath(r, s) == IF \E n \in NodeIds(r.world) : PathStr(r.world, n) = s
-                  THEN CHOOSE n \in NodeIds(r.world) : PathStr(r.world, n) = s ELSE 0
-Ids(r) == LET rows == r.obs.q.rows IN [i \in 1 .. Len(rows) |-> IdOfPath(r, rows[i][1])]
 Range(s) == { s[i] : i \in 1 .. Len(s) }
 NoDup(s) == \A i, j \in 1 .. Len(s) : i # j => s[i] # s[j]
 
-All(r) == NodeIds(r.world)
-MustSet(r) == Must(r, r.formula, All(r))
-MaySet(r) == May(r, r.formula, All(r))
-
-Why(r) == LET ids == Ids(r) IN
-  IF r.obs.q.timed_out THEN "timeout"
-  ELSE IF \E i \in 1 .. Len(ids) : ids[i] = 0 THEN "unknown-row"
-  ELSE IF ~NoDup(ids) THEN "duplicate-row"
-  ELSE IF Range(ids) \ (MustSet(r) \cup MaySet(r)) # {} THEN "extra-row"
-  ELSE IF MustSet(r) \ Range(ids) # {} THEN (IF r.obs.q.status = 2 THEN "rejected-as-malformed" ELSE IF r.obs.q.panic THEN "crash" ELSE "missing-row")
-  ELSE "ok"
-
-(* a scenario exercises the property when the condition separates the entries *)
-NonTrivial(r) == MustSet(r) # {} /\ MustSet(r) # All(r)
-
-Verdict(r) == LET y == Why(r) IN
-  [id |-> r.id, ok |-> (y = "ok"), class |-> r.class, why |-> y,
-   key |-> r.prop \o "/" \o r.class \o "/" \o y, nontrivial |-> NonTrivial(r)]
+(* everything that is needed more than once is bound by LET so that TLC evaluates it once per record *)
+Verdict(r) ==
+  LET w     == r.world
+      all   == NodeIds(w)
+      paths == [n \in all |-> PathStr(w, n)]
+      rows  == r.obs.q.rows
+      ids   == [i \in 1 .. Len(rows) |-> IF \E n \in all : paths[n] = rows[i][1]
+                                         THEN CHOOSE n \in all : paths[n] = rows[i][1] ELSE 0]
+      sat   == [n \in all |-> Sat3(r, n, r.formula)]
+      must  == { n \in all : sat[n] = "T" }
+      may   == { n \in all : sat[n] = "U" }
+      y     == IF r.obs.q.timed_out THEN "timeout"
+               ELSE IF \E i \in 1 .. Len(ids) : ids[i] = 0 THEN "unknown-row"
+               ELSE IF ~NoDup(ids) THEN "duplicate-row"
+               ELSE IF Range(ids) \ (must \cup may) # {} THEN "extra-row"
+               ELSE IF must \ Range(ids) # {}
+                    THEN (IF r.obs.q.status = 2 THEN "rejected-as-malformed" ELSE IF r.obs.q.panic THEN "crash" ELSE "missing-row")
+               ELSE "ok"
+  IN [id |-> r.id, ok |-> (y = "ok"), class |-> r.class, why |-> y,
+      key |-> r.prop \o "/" \o r.class \o "/" \o y,
+      \* a scenario exercises the property when the condition separates the entries
+      nontrivial |-> (must # {} /\ must # all)]
 
 Init == l = 1
 Next == /\ l <= Len(Rec)
